@@ -7,6 +7,7 @@ from checks import callcommon, ctxcommon
 from framework import Case
 
 PROP = "C10"
+GENERATED = ['DtypeTables']  # generated files this check's tie depends on
 LEAN_MODULES = ["Properties.C10"]
 RULE = (
     "exhaustive None / conforming / violating patterns over signatures with optional hints in parameter, tuple-element (every position), "
